@@ -44,8 +44,14 @@ where
     // See also: https://github.com/21re/rust-geo-booleanop/pull/11
 
     // Prevent from corner case 1
+    #[cfg(feature = "verif-hooks")]
+    let verif_requested = inter;
+    #[cfg(feature = "verif-hooks")]
+    crate::verif::hit(crate::verif::Site::DsCalls);
     let mut inter = inter;
     if inter.x == se_l.point.x && inter.y < se_l.point.y {
+        #[cfg(feature = "verif-hooks")]
+        crate::verif::hit(crate::verif::Site::DsCorner1Bump);
         inter.x = inter.x.nextafter(true);
     }
 
@@ -70,8 +76,23 @@ where
     debug_assert!(se_l.is_before(&r));
     // Corner case 2 can be accounted for by swapping l / se_r
     if !l.is_before(&se_r) {
+        #[cfg(feature = "verif-hooks")]
+        crate::verif::hit(crate::verif::Site::DsCorner2Swap);
         se_r.set_left(true);
         l.set_left(false);
+    }
+
+    #[cfg(feature = "verif-hooks")]
+    if crate::verif::division_log_enabled() {
+        let w = |c: Coord<F>| -> (f64, f64) { (c.x.into(), c.y.into()) };
+        crate::verif::log_division(crate::verif::Division {
+            left: w(se_l.point),
+            right: w(se_r.point),
+            requested: w(verif_requested),
+            used: w(inter),
+            is_subject: se_l.is_subject,
+            swapped: !l.is_left(),
+        });
     }
 
     se_l.set_other_event(&r);
